@@ -38,6 +38,14 @@ def literal_packet(m):
     return _get(m, '_message')
 
 
+def encrypted_buffer(m):
+    """The mutable ciphertext buffer of an encrypted PGPMessage (private): what an application that patches a message object in place reaches."""
+    buf = _get(_get(m, '_message'), 'ct')
+    if not isinstance(buf, bytearray):
+        raise HarnessBinding('harness binding is stale: encrypted data packet keeps its ciphertext as %s' % type(buf).__name__)
+    return buf
+
+
 def literal_contents(m):
     return bytes(_get(literal_packet(m), '_contents'))
 
